@@ -29,10 +29,11 @@ const (
 	fixDel
 	fixLen
 	fixStruct // explicitly constructed adversarial input (nesting chains, peer scripts)
+	fixOpt    // optional-field variant (field absent / null, in either half of paired structures)
 )
 
-var fixKindName = [...]string{"fix-trunc", "fix-del", "fix-len", "structured"}
-var fixCounter = [...]string{"exhaustive_truncations", "exhaustive_byte_deletions", "exhaustive_length_field_deltas", "structured_adversarial_inputs"}
+var fixKindName = [...]string{"fix-trunc", "fix-del", "fix-len", "structured", "opt-field"}
+var fixCounter = [...]string{"exhaustive_truncations", "exhaustive_byte_deletions", "exhaustive_length_field_deltas", "structured_adversarial_inputs", "optional_field_variants"}
 
 type fixedOp struct {
 	kind  uint8
@@ -50,6 +51,9 @@ type fixedPlan struct {
 	ops  []fixedOp
 	// lens are the length-field positions addressed by fixLen ops.
 	lens []fixedLenPos
+	// items and opts describe the optional-field variants addressed by fixOpt ops.
+	items []cborItem
+	opts  []optEdit
 	// explicit, if set, constructs input i of a plan of fixStruct ops.
 	explicit func(i int) *Input
 }
@@ -152,6 +156,13 @@ func newFixedPlanLimits(rng *rand.Rand, s *Seed, aux, tag string, wrap func([]by
 			}
 		}
 	}
+	if len(items) > 0 {
+		p.items = items
+		p.opts = optionalFieldEdits(s.Data, items, 4000)
+		for i := range p.opts {
+			p.ops = append(p.ops, fixedOp{kind: fixOpt, a: int32(i)})
+		}
+	}
 	return p
 }
 
@@ -167,6 +178,8 @@ func (p *fixedPlan) input(i int) *Input {
 		out = append([]byte{}, b[:op.a]...)
 	case fixDel:
 		out = splice(b, int(op.a), int(op.a)+1, nil)
+	case fixOpt:
+		out = applyOptEdit(b, p.items, p.opts[op.a])
 	case fixLen:
 		lp := p.lens[op.a]
 		if lp.cbor {
